@@ -336,12 +336,13 @@ func J(v interface{}) []byte {
 
 type M = map[string]interface{}
 
-func AddBlobberInput(k *Key, capacity int64, wp, rp uint64, wallet string, charge float64, url string) []byte {
+func AddBlobberInput(k *Key, capacity int64, wp, rp uint64, wallet string, charge float64, url string, enterprise ...bool) []byte {
+	ent := len(enterprise) > 0 && enterprise[0]
 	return J(M{
 		"id": k.ID, "url": url, "capacity": capacity,
 		"terms":               M{"read_price": rp, "write_price": wp},
 		"stake_pool_settings": M{"delegate_wallet": wallet, "num_delegates": 10, "service_charge": charge},
-		"is_restricted":       false, "is_enterprise": false,
+		"is_restricted":       false, "is_enterprise": ent,
 	})
 }
 
@@ -365,6 +366,14 @@ func NewAllocInput(data, parity int, size int64, owner, ownerPK string, blobbers
 	tickets := make([]string, len(blobbers))
 	return J(M{"data_shards": data, "parity_shards": parity, "size": size, "owner_id": owner, "owner_public_key": ownerPK,
 		"blobbers": blobbers, "blobber_auth_tickets": tickets,
+		"read_price_range":  M{"min": rr.Min, "max": rr.Max},
+		"write_price_range": M{"min": wr.Min, "max": wr.Max}, "third_party_extendable": thirdParty})
+}
+
+// NewEnterpriseAllocInput: is_enterprise request; tickets[i] = blobber i's signature over the owner's id.
+func NewEnterpriseAllocInput(data, parity int, size int64, owner, ownerPK string, blobbers, tickets []string, rr, wr PriceRange, thirdParty bool) []byte {
+	return J(M{"data_shards": data, "parity_shards": parity, "size": size, "owner_id": owner, "owner_public_key": ownerPK,
+		"blobbers": blobbers, "blobber_auth_tickets": tickets, "is_enterprise": true,
 		"read_price_range":  M{"min": rr.Min, "max": rr.Max},
 		"write_price_range": M{"min": wr.Min, "max": wr.Max}, "third_party_extendable": thirdParty})
 }
